@@ -32,6 +32,7 @@ MMAX = {'quick': 5, 'thorough': 6}
 CHUNK = 800
 N_RANDOM = {'quick': 200, 'thorough': 5000}
 RESIDENCES = [0, 1, 2, 3, 5]
+BOUNDARY_T = {'quick': [127, 128, 129, 130, 255, 256, 257, 258, 32769], 'thorough': [126, 127, 128, 129, 130, 131, 254, 255, 256, 257, 258, 259, 32767, 32768, 32769, 32770, 65537]}
 BUDGET_S = {'quick': 220, 'thorough': 2400}
 COLS = ['atom index', 'start site', 'destination site', 'start time', 'stop time']
 
@@ -61,6 +62,9 @@ def units(tier):
             out.append({'k': 'exh5', 'L': L, 'lo': lo, 'hi': min(n, lo + CHUNK)})
     for i in range(N_RANDOM[tier]):
         out.append({'k': 'rand', 'i': i})
+    # trajectory lengths around integer-width boundaries, with a hop on the very last frame step
+    for T in BOUNDARY_T[tier]:
+        out.append({'k': 'boundary', 'T': T})
     return out
 
 
@@ -198,10 +202,14 @@ def run_unit(unit, rng, ctx):
             ctx.case(signature(states[:, j], np.asarray(tr.inner_states)[:, j], f), bool(dj), sample={'kind': k, 'states': states[:, j], 'inner': np.asarray(tr.inner_states)[:, j], 'default_jumps(atom,o,d,start,stop)': dj} if dj else None)
             ctx.count('histories_with_return_to_same_site', _has_return(states[:, j]))
         return
-    big = ctx.tier == 'thorough' and unit['i'] % 10 == 0
+    big = ctx.tier == 'thorough' and unit.get('i', 1) % 10 == 0
     T = int(rng.integers(150, 1200)) if big else int(rng.integers(3, 90))
     f = float(rng.choice([1.0, 1.0, 0.5, 0.3]))
-    sys_ = gen.make_site_system(rng, T=T, n_atoms=int(rng.integers(1, 5)), n_sites=int(rng.integers(4, 9)), inner_fraction=f, margin=0.04, p_move=float(rng.choice([0.1, 0.3, 0.6])))
+    if k == 'boundary':
+        T = int(unit['T'])
+        f = 1.0
+        ctx.count('boundary_length_histories')
+    sys_ = gen.make_site_system(rng, tail_last_frame_hop=(k == 'boundary'), T=T, n_atoms=int(rng.integers(1, 5)), n_sites=int(rng.integers(4, 9)), inner_fraction=f, margin=0.04, p_move=0.01 if T > 2000 else float(rng.choice([0.1, 0.3, 0.6])))
     has_change = bool(np.any(sys_.states_true[1:] != sys_.states_true[:-1]))
     try:
         tr = sys_.transitions()
